@@ -899,7 +899,11 @@ func (w *W) mapFind(m *MapObj, key Value) *mapEntry {
 func (w *W) mapSet(m *MapObj, key, val Value) {
 	if w.traced != nil {
 		w.traceAccess("W", m)
-		if name, ok := w.traced[m]; ok && val.k == KPtr {
+		if name, ok := w.traced[m]; ok && w.traceDeep {
+			var sb strings.Builder
+			keyEnc(&sb, key)
+			w.traceEscape(val, name+"["+shortKey(sb.String())+"]", 0)
+		} else if ok && val.k == KPtr {
 			if p := val.ptr(); p != nil {
 				var sb strings.Builder
 				keyEnc(&sb, key)
